@@ -1073,6 +1073,11 @@ func (in *Interp) assert(c *term.Term, label string) {
 			res, model, solver = smt.Sat, in.model, "model-reuse"
 		}
 	}
+	if solver == "" && StopOnSat {
+		if m := in.randomWitness(c, 3); m != nil {
+			res, model, solver = smt.Sat, m, "random-witness"
+		}
+	}
 	if solver == "" {
 		res, model, solver = in.check(term.BNot(c), true)
 	}
@@ -1090,8 +1095,18 @@ func (in *Interp) assert(c *term.Term, label string) {
 	if debugOn {
 		fmt.Fprintf(os.Stderr, "assert path=%d %q %s %s %dms nodes=%d\n", in.pathID, label, a.Verdict, a.Solver, a.Ms, a.PCSize)
 	}
+	if StopOnSat && res == smt.Sat {
+		// native semantics: a failed Assert panics, the rest of the harness does not run.
+		// Without this the path continues under the assumption c, which for a refuted ARX
+		// equality poisons every later query on the path with a collision-search constraint.
+		panic(pathEnd{endAssume, "assertion violated: " + label})
+	}
 	in.addPC(c)
 }
+
+// StopOnSat (gosym -stop-on-sat): end a path at its first refuted assertion instead of
+// continuing under the assumption that the assertion holds.
+var StopOnSat bool
 
 func (in *Interp) modelValues(model map[string]*big.Int) ([]string, []string) {
 	vals := make([]string, len(in.syms))
